@@ -166,6 +166,59 @@ def _sig(prop: str):  # type: ignore[no-untyped-def]
     return sig
 
 
+class _RealServer:
+    def __init__(self, world: _World) -> None:
+        self.world = world
+
+    def serve(self, transport) -> None:  # type: ignore[no-untyped-def]
+        w = self.world
+        w.serving.append(transport.conn.n)
+        if w.max_conn is not None and len(w.serving) > w.max_conn:
+            w.bad.append("more-than-max_connections-in-service")
+        coop.harness_point()
+        coop.harness_point()
+        w.serving.remove(transport.conn.n)
+        w.served.append(transport.conn.n)
+
+
+def _real_replay(script: list[int], prop: str):  # type: ignore[no-untyped-def]
+    """Force the counterexample schedule onto genuine threads: the unmodified
+    _serve_socket_threaded with real threading.Thread / Timer / Lock / Semaphore (timers fire when
+    the recorded schedule says so instead of after their interval)."""
+
+    def replay(a: dict) -> str | None:
+        e = (script + [0, 0, 0])[:3]
+        pre = [(a["p1"], a["t1"])] + ([(a["p2"], a["t2"])] if "p2" in a else [])
+        s, world = _scenario(e[0], e[1], e[2], len(script), a["mc"], 0, pre)
+        if not [b for b in _problems(s, world) if not is_open(prop + ":" + b)]:
+            return None
+        mcv = world.max_conn
+        rworld = _World(mcv)
+
+        def main() -> None:
+            tr._serve_socket_threaded(_RealServer(rworld), _Sock(rworld, list(script)), mcv, 5.0, lambda c: _Transport(rworld, c), "t")  # type: ignore[arg-type]
+            rworld.returned = True
+            if not rworld.listener_closed:
+                pending = [c.n for c in rworld.accepted if c.n not in rworld.served]
+                if pending:
+                    rworld.bad.append("idle-shutdown-with-connection-accepted")
+
+        res = coop.replay_real(UNIT, [main], s.trace, s.seg_ends, dynamic=True)
+        if res["diverged"] or not res["completed"] or any(res["exceptions"]):
+            return None
+
+        class _S:
+            deadlocked = False
+            threads: list = []
+
+        bad = [b for b in _problems(_S, rworld) if not is_open(prop + ":" + b)]
+        if bad:
+            return f"real threads ({res['segments']} segments, {res['spawned']} threads started by the code): {bad}; accepted={len(rworld.accepted)} served={rworld.served} listener_closed={rworld.listener_closed}"
+        return None
+
+    return replay
+
+
 def _cell(script: list[int], mc: int, pre, prop: str) -> bool:  # type: ignore[no-untyped-def]
     e = (script + [0, 0, 0])[:3]
     s, world = _scenario(e[0], e[1], e[2], len(script), mc, 0, pre)
@@ -186,7 +239,7 @@ def _cell_sig(script: list[int], prop: str):  # type: ignore[no-untyped-def]
 _CB = "accept results %s then listener closed; max_connections None/1/2; idle_timeout set; %d preemption(s) at any statement to any thread (accept loop, timers, connection threads)"
 
 
-@cond(q=220, t=400, engine="coop", encoded=ENCODED, stubs=ASSUMPTIONS, bound=_CB % ("connection timeout", 1), signature=_cell_sig([1, 0], "C33"))
+@cond(q=220, t=400, engine="coop", encoded=ENCODED, stubs=ASSUMPTIONS, bound=_CB % ("connection timeout", 1), signature=_cell_sig([1, 0], "C33"), replay=_real_replay([1, 0], "C33"))
 def accept_ct_k1(mc: int, p1: int, t1: int) -> bool:
     """
     pre: 0 <= mc <= 2 and 0 <= p1 <= 110 and 0 <= t1 <= 4
@@ -195,7 +248,7 @@ def accept_ct_k1(mc: int, p1: int, t1: int) -> bool:
     return _cell([1, 0], mc, [(p1, t1)], "C33")
 
 
-@cond(q=220, t=400, engine="coop", encoded=ENCODED, stubs=ASSUMPTIONS, bound=_CB % ("connection connection timeout", 1), signature=_cell_sig([1, 1, 0], "C33"))
+@cond(q=220, t=400, engine="coop", encoded=ENCODED, stubs=ASSUMPTIONS, bound=_CB % ("connection connection timeout", 1), signature=_cell_sig([1, 1, 0], "C33"), replay=_real_replay([1, 1, 0], "C33"))
 def accept_cct_k1(mc: int, p1: int, t1: int) -> bool:
     """
     pre: 0 <= mc <= 2 and 0 <= p1 <= 110 and 0 <= t1 <= 4
@@ -204,7 +257,7 @@ def accept_cct_k1(mc: int, p1: int, t1: int) -> bool:
     return _cell([1, 1, 0], mc, [(p1, t1)], "C33")
 
 
-@cond(q=220, t=400, engine="coop", encoded=ENCODED, stubs=ASSUMPTIONS, bound=_CB % ("timeout connection timeout", 1), signature=_cell_sig([0, 1, 0], "C33"))
+@cond(q=220, t=400, engine="coop", encoded=ENCODED, stubs=ASSUMPTIONS, bound=_CB % ("timeout connection timeout", 1), signature=_cell_sig([0, 1, 0], "C33"), replay=_real_replay([0, 1, 0], "C33"))
 def accept_tct_k1(mc: int, p1: int, t1: int) -> bool:
     """
     pre: 0 <= mc <= 2 and 0 <= p1 <= 110 and 0 <= t1 <= 4
@@ -213,7 +266,7 @@ def accept_tct_k1(mc: int, p1: int, t1: int) -> bool:
     return _cell([0, 1, 0], mc, [(p1, t1)], "C33")
 
 
-@cond(q=220, t=400, engine="coop", encoded=ENCODED, stubs=ASSUMPTIONS, bound=_CB % ("connection timeout connection", 1), signature=_cell_sig([1, 0, 1], "C33"))
+@cond(q=220, t=400, engine="coop", encoded=ENCODED, stubs=ASSUMPTIONS, bound=_CB % ("connection timeout connection", 1), signature=_cell_sig([1, 0, 1], "C33"), replay=_real_replay([1, 0, 1], "C33"))
 def accept_ctc_k1(mc: int, p1: int, t1: int) -> bool:
     """
     pre: 0 <= mc <= 2 and 0 <= p1 <= 110 and 0 <= t1 <= 4
@@ -222,7 +275,7 @@ def accept_ctc_k1(mc: int, p1: int, t1: int) -> bool:
     return _cell([1, 0, 1], mc, [(p1, t1)], "C33")
 
 
-@cond(q=220, t=400, tiers=("thorough",), engine="coop", encoded=ENCODED, stubs=ASSUMPTIONS, bound=_CB % ("connection", 1), signature=_cell_sig([1], "C33"))
+@cond(q=220, t=400, tiers=("thorough",), engine="coop", encoded=ENCODED, stubs=ASSUMPTIONS, bound=_CB % ("connection", 1), signature=_cell_sig([1], "C33"), replay=_real_replay([1], "C33"))
 def accept_c_k1(mc: int, p1: int, t1: int) -> bool:
     """
     pre: 0 <= mc <= 2 and 0 <= p1 <= 110 and 0 <= t1 <= 4
@@ -231,7 +284,7 @@ def accept_c_k1(mc: int, p1: int, t1: int) -> bool:
     return _cell([1], mc, [(p1, t1)], "C33")
 
 
-@cond(q=220, t=400, tiers=("thorough",), engine="coop", encoded=ENCODED, stubs=ASSUMPTIONS, bound=_CB % ("timeout", 1), signature=_cell_sig([0], "C33"))
+@cond(q=220, t=400, tiers=("thorough",), engine="coop", encoded=ENCODED, stubs=ASSUMPTIONS, bound=_CB % ("timeout", 1), signature=_cell_sig([0], "C33"), replay=_real_replay([0], "C33"))
 def accept_t_k1(mc: int, p1: int, t1: int) -> bool:
     """
     pre: 0 <= mc <= 2 and 0 <= p1 <= 110 and 0 <= t1 <= 4
@@ -240,7 +293,7 @@ def accept_t_k1(mc: int, p1: int, t1: int) -> bool:
     return _cell([0], mc, [(p1, t1)], "C33")
 
 
-@cond(q=220, t=400, tiers=("thorough",), engine="coop", encoded=ENCODED, stubs=ASSUMPTIONS, bound=_CB % ("connection connection", 1), signature=_cell_sig([1, 1], "C33"))
+@cond(q=220, t=400, tiers=("thorough",), engine="coop", encoded=ENCODED, stubs=ASSUMPTIONS, bound=_CB % ("connection connection", 1), signature=_cell_sig([1, 1], "C33"), replay=_real_replay([1, 1], "C33"))
 def accept_cc_k1(mc: int, p1: int, t1: int) -> bool:
     """
     pre: 0 <= mc <= 2 and 0 <= p1 <= 110 and 0 <= t1 <= 4
@@ -249,7 +302,7 @@ def accept_cc_k1(mc: int, p1: int, t1: int) -> bool:
     return _cell([1, 1], mc, [(p1, t1)], "C33")
 
 
-@cond(q=220, t=400, tiers=("thorough",), engine="coop", encoded=ENCODED, stubs=ASSUMPTIONS, bound=_CB % ("timeout timeout", 1), signature=_cell_sig([0, 0], "C33"))
+@cond(q=220, t=400, tiers=("thorough",), engine="coop", encoded=ENCODED, stubs=ASSUMPTIONS, bound=_CB % ("timeout timeout", 1), signature=_cell_sig([0, 0], "C33"), replay=_real_replay([0, 0], "C33"))
 def accept_tt_k1(mc: int, p1: int, t1: int) -> bool:
     """
     pre: 0 <= mc <= 2 and 0 <= p1 <= 110 and 0 <= t1 <= 4
@@ -258,7 +311,7 @@ def accept_tt_k1(mc: int, p1: int, t1: int) -> bool:
     return _cell([0, 0], mc, [(p1, t1)], "C33")
 
 
-@cond(q=220, t=400, tiers=("thorough",), engine="coop", encoded=ENCODED, stubs=ASSUMPTIONS, bound=_CB % ("connection connection connection", 1), signature=_cell_sig([1, 1, 1], "C33"))
+@cond(q=220, t=400, tiers=("thorough",), engine="coop", encoded=ENCODED, stubs=ASSUMPTIONS, bound=_CB % ("connection connection connection", 1), signature=_cell_sig([1, 1, 1], "C33"), replay=_real_replay([1, 1, 1], "C33"))
 def accept_ccc_k1(mc: int, p1: int, t1: int) -> bool:
     """
     pre: 0 <= mc <= 2 and 0 <= p1 <= 110 and 0 <= t1 <= 4
@@ -267,7 +320,7 @@ def accept_ccc_k1(mc: int, p1: int, t1: int) -> bool:
     return _cell([1, 1, 1], mc, [(p1, t1)], "C33")
 
 
-@cond(q=220, t=400, tiers=("thorough",), engine="coop", encoded=ENCODED, stubs=ASSUMPTIONS, bound=_CB % ("timeout timeout connection", 1), signature=_cell_sig([0, 0, 1], "C33"))
+@cond(q=220, t=400, tiers=("thorough",), engine="coop", encoded=ENCODED, stubs=ASSUMPTIONS, bound=_CB % ("timeout timeout connection", 1), signature=_cell_sig([0, 0, 1], "C33"), replay=_real_replay([0, 0, 1], "C33"))
 def accept_ttc_k1(mc: int, p1: int, t1: int) -> bool:
     """
     pre: 0 <= mc <= 2 and 0 <= p1 <= 110 and 0 <= t1 <= 4
@@ -276,7 +329,7 @@ def accept_ttc_k1(mc: int, p1: int, t1: int) -> bool:
     return _cell([0, 0, 1], mc, [(p1, t1)], "C33")
 
 
-@cond(q=220, t=400, tiers=("thorough",), engine="coop", encoded=ENCODED, stubs=ASSUMPTIONS, bound=_CB % ("timeout connection connection", 1), signature=_cell_sig([0, 1, 1], "C33"))
+@cond(q=220, t=400, tiers=("thorough",), engine="coop", encoded=ENCODED, stubs=ASSUMPTIONS, bound=_CB % ("timeout connection connection", 1), signature=_cell_sig([0, 1, 1], "C33"), replay=_real_replay([0, 1, 1], "C33"))
 def accept_tcc_k1(mc: int, p1: int, t1: int) -> bool:
     """
     pre: 0 <= mc <= 2 and 0 <= p1 <= 110 and 0 <= t1 <= 4
@@ -285,7 +338,7 @@ def accept_tcc_k1(mc: int, p1: int, t1: int) -> bool:
     return _cell([0, 1, 1], mc, [(p1, t1)], "C33")
 
 
-@cond(q=220, t=400, tiers=("thorough",), engine="coop", encoded=ENCODED, stubs=ASSUMPTIONS, bound=_CB % ("connection timeout timeout", 1), signature=_cell_sig([1, 0, 0], "C33"))
+@cond(q=220, t=400, tiers=("thorough",), engine="coop", encoded=ENCODED, stubs=ASSUMPTIONS, bound=_CB % ("connection timeout timeout", 1), signature=_cell_sig([1, 0, 0], "C33"), replay=_real_replay([1, 0, 0], "C33"))
 def accept_ctt_k1(mc: int, p1: int, t1: int) -> bool:
     """
     pre: 0 <= mc <= 2 and 0 <= p1 <= 110 and 0 <= t1 <= 4
@@ -294,7 +347,7 @@ def accept_ctt_k1(mc: int, p1: int, t1: int) -> bool:
     return _cell([1, 0, 0], mc, [(p1, t1)], "C33")
 
 
-@cond(q=150, t=3000, tiers=("thorough",), engine="coop", encoded=ENCODED, stubs=ASSUMPTIONS, bound=_CB % ("connection timeout", 2), signature=_cell_sig([1, 0], "C33"))
+@cond(q=150, t=3000, tiers=("thorough",), engine="coop", encoded=ENCODED, stubs=ASSUMPTIONS, bound=_CB % ("connection timeout", 2), signature=_cell_sig([1, 0], "C33"), replay=_real_replay([1, 0], "C33"))
 def accept_ct_k2(mc: int, p1: int, t1: int, p2: int, t2: int) -> bool:
     """
     pre: 0 <= mc <= 2 and 0 <= p1 < p2 <= 130 and 0 <= t1 <= 4 and 0 <= t2 <= 4
@@ -303,7 +356,7 @@ def accept_ct_k2(mc: int, p1: int, t1: int, p2: int, t2: int) -> bool:
     return _cell([1, 0], mc, [(p1, t1), (p2, t2)], "C33")
 
 
-@cond(q=150, t=3000, tiers=("thorough",), engine="coop", encoded=ENCODED, stubs=ASSUMPTIONS, bound=_CB % ("connection connection timeout", 2), signature=_cell_sig([1, 1, 0], "C33"))
+@cond(q=150, t=3000, tiers=("thorough",), engine="coop", encoded=ENCODED, stubs=ASSUMPTIONS, bound=_CB % ("connection connection timeout", 2), signature=_cell_sig([1, 1, 0], "C33"), replay=_real_replay([1, 1, 0], "C33"))
 def accept_cct_k2(mc: int, p1: int, t1: int, p2: int, t2: int) -> bool:
     """
     pre: 0 <= mc <= 2 and 0 <= p1 < p2 <= 130 and 0 <= t1 <= 4 and 0 <= t2 <= 4
